@@ -146,6 +146,22 @@ def trace_validation(rep, wd, tier, seed):
                 variants.append(body + str((int(valid[-1]) + 3) % 10))
         traces.append({'tid': tid, 'events': ev, '_variants': variants, '_desc': 'number %s' % shown})
         allnums += variants
+    # issuer-prefix sweep: every four-digit prefix at the usual card lengths (15, 16 and one more of 12..19; thorough:
+    # all of 12..19) - one valid number and one with a single wrong digit behind the prefix.  Validation may not
+    # depend on who issued the card.
+    lens_all = (12, 13, 14, 15, 16, 17, 18, 19)
+    for pfx in range(10000):
+        r = drv.rng(seed, 'c15pfx', pfx)
+        lens = lens_all if tier == 'thorough' else (15, 16, lens_all[(pfx + seed) % 8])
+        variants = []
+        for ln in sorted(set(lens)):
+            body = '%04d' % pfx + ''.join(r.choice('0123456789') for _ in range(ln - 5))
+            valid = body + card.calculate_check_digit(body)
+            i = r.randrange(4, ln)
+            wrong = valid[:i] + str((int(valid[i]) + r.randrange(1, 10)) % 10) + valid[i + 1:]
+            variants += [valid, wrong]
+        traces.append({'tid': len(traces), 'events': [], '_variants': variants, '_desc': 'issuer prefix %04d' % pfx})
+        allnums += variants
     normal, opt = validate_modes(allnums)
     p = 0
     for t in traces:
